@@ -1735,6 +1735,13 @@ class FixedIncomeSecurity(SecurityBase):
     Only relevant when using :class:`FixedIncomeStrategy <bt.core.FixedIncomeStrategy>`.
     """
 
+    @cy.locals(multiplier=cy.double)
+    def __init__(self, name, multiplier=1, lazy_add=False):
+        super(FixedIncomeSecurity, self).__init__(name, multiplier, lazy_add)
+        # notional is the position (par): a fixed income parent rebalances
+        # this security by notional (transact), not by capital (allocate)
+        self._fixed_income = True
+
     @cy.locals(coupon=cy.double)
     def update(self, date, data=None, inow=None):
         """
